@@ -7,6 +7,7 @@
 package ilv
 
 import (
+	"strings"
 	"bytes"
 	"fmt"
 	"runtime"
@@ -39,6 +40,7 @@ type thread struct {
 	write   bool
 	rw      bool
 	panic   string
+	where   string
 }
 
 // Point is one scheduling decision of an execution.
@@ -46,7 +48,11 @@ type Point struct {
 	Enabled        []int // thread ids in canonical order (running thread first if still enabled, then ascending)
 	RunningEnabled bool
 	Chosen         int // index into Enabled
+	Desc           string `json:",omitempty"` // only with Trace: what every live thread waits for
 }
+
+// Trace makes Run describe every scheduling point (debugging aid for nondeterminism of the harness).
+var Trace = false
 
 // Result of one execution.
 type Result struct {
@@ -118,6 +124,23 @@ func (s *Sched) BeforeAcquire(m unsafe.Pointer, write bool, rw bool) {
 		s.byGid[g] = t
 	}
 	s.lockOps++
+	if Trace {
+		pc := make([]uintptr, 12)
+		n := runtime.Callers(3, pc)
+		fr := runtime.CallersFrames(pc[:n])
+		t.where = ""
+		for {
+			f, more := fr.Next()
+			nm := f.Function
+			if i := strings.LastIndex(nm, "/"); i >= 0 {
+				nm = nm[i+1:]
+			}
+			t.where += fmt.Sprintf("%s:%d<", nm, f.Line)
+			if !more {
+				break
+			}
+		}
+	}
 	t.m, t.write, t.rw = m, write, rw
 	t.parked = true
 	s.mu.Unlock()
@@ -262,10 +285,29 @@ func Run(bodies []func(), names []string, prefix []int, limit time.Duration) *Re
 					}
 				}
 			}
+			var loose *thread // the one thread that was granted its step and has not parked since
+			for _, t := range s.threads {
+				if !t.done && !t.parked && t.id >= len(bodies) {
+					loose = t
+				}
+			}
 			s.mu.Unlock()
 			n := runtime.NumGoroutine()
 			if allParked && n <= base+alive+ExtraGoroutines {
 				break
+			}
+			if loose != nil && n <= base+alive-1+ExtraGoroutines {
+				// an adopted goroutine has no wrapper that reports its end. It was running when another goroutine's park
+				// notification ended the wait below, and it has returned since: one goroutine fewer than live threads.
+				time.Sleep(20 * time.Microsecond)
+				if runtime.NumGoroutine() <= base+alive-1+ExtraGoroutines {
+					s.mu.Lock()
+					if !loose.parked {
+						loose.done = true
+					}
+					s.mu.Unlock()
+					continue
+				}
 			}
 			spins++
 			if spins < 100 {
@@ -335,7 +377,19 @@ func Run(bodies []func(), names []string, prefix []int, limit time.Duration) *Re
 				return res
 			}
 		}
-		res.Points = append(res.Points, Point{Enabled: append([]int{}, en...), RunningEnabled: runningEnabled, Chosen: choice})
+		pt := Point{Enabled: append([]int{}, en...), RunningEnabled: runningEnabled, Chosen: choice}
+		if Trace {
+			for _, t := range s.threads {
+				if !t.done {
+					id := -1
+					if t.m != nil {
+						id = s.mutex(t.m, t.rw).id
+					}
+					pt.Desc += fmt.Sprintf("[t%d %s m%d w=%v %s] ", t.id, t.name, id, t.write, t.where)
+				}
+			}
+		}
+		res.Points = append(res.Points, pt)
 		if runningEnabled && choice != 0 {
 			res.Preemptions++
 		}
